@@ -18,7 +18,10 @@ TRUSTED_BASE = [
     'z3 5.1 (z3-new) and cvc5 1.0.3, first definite answer wins; sound variants of a VC (goal skolemised, quantified '
     'assumptions instantiated / dropped) only contribute `unsat` answers',
     'python ints are mathematical integers; str(int) is an uninterpreted function; strings are SMT strings',
-    'well-formedness of parse / instantiated trees: contracts/schema.py (typed fields, class invariants)',
+    'well-formedness of parse / instantiated trees: contracts/schema.py (typed fields, class invariants); assumed by the proofs, '
+    'checked at run time on every tree of the bounded scopes of C01 / C08 (pyvc/wfcheck.py)',
+    'objects of classes in different inheritance families never coincide (heap versions per class family); a function is '
+    'verified for partial correctness (termination and resource exhaustion are not)',
     'CPython and pyparsing for the bounded tier and for replays',
 ]
 
